@@ -178,7 +178,7 @@ impl<R: RealNumberInternalTrait> std::ops::Div<Number<R>> for Number<R> {
                 check_division_by_zero(b)?;
                 match a % b {
                     0 => Ok(Number::Integer(a / b)),
-                    _ => Ok(Number::Rational(a, b)),
+                    _ => Ok(Number::positive_denominator(a, b)),
                 }
             }
             NumberBinaryOperand::Real(a, b) => Ok(Number::Real(a / b)),
@@ -186,8 +186,19 @@ impl<R: RealNumberInternalTrait> std::ops::Div<Number<R>> for Number<R> {
                 check_division_by_zero(b1)?;
                 check_division_by_zero(a2)?;
                 check_division_by_zero(b2)?;
-                Ok(Number::Rational(a1 * b2, a2 * b1))
+                Ok(Number::positive_denominator(a1 * b2, a2 * b1))
             }
+        }
+    }
+}
+
+impl<R: RealNumberInternalTrait> Number<R> {
+    // comparison, floor, ceiling and the printed form all assume a positive denominator
+    fn positive_denominator(numerator: i32, denominator: i32) -> Number<R> {
+        if denominator < 0 {
+            Number::Rational(-numerator, -denominator)
+        } else {
+            Number::Rational(numerator, denominator)
         }
     }
 }
